@@ -87,6 +87,14 @@ def gen_row(rng, row, single, rich=True, maxlen=None, italic_bias=0.0):
         spec['col'] = rng.choice([0, 0, 4, 8, 12, 16, 20, 24, 28])
         spec['to'] = rng.choice([0, 0, 1, 2, 3])
     room = 32 - spec['col'] - spec['to']
+    if not maxlen and rng.random() < 0.05:
+        # a row that fills its room to the last column (all 32 columns when it starts at column 0)
+        if rng.random() < 0.7:
+            spec.update(col=0, to=0, pac_italic=False, pac_color=None)
+            room = 32
+        text = plain_text(rng, room, '')
+        spec['items'] = [['c', ch] for ch in text]
+        return spec
     spec['items'] = gen_items(rng, min(room, maxlen or room), single, rich)
     if any(i[0] in ('ext', 'bs') for i in spec['items']) and _peak_cells(spec['items']) >= room:
         # the cursor does not advance past column 32, so a backspace / extended character issued there
